@@ -167,6 +167,7 @@ func Recv2[T any](ch <-chan T) (T, bool) {
 		if v, ok, got := tryRecv(k, ch, key); got {
 			return v, ok
 		}
+		k.wakeSelSenders(key)
 		k.Block(KRecv, key)
 	}
 }
@@ -252,18 +253,12 @@ func TrySend[T any](ch chan<- T, v T) bool {
 	if cap(ch) == 0 {
 		// unbuffered: succeeds iff a receiver is parked on this channel; hand the value over through
 		// the kernel (the receiver takes it when it is scheduled next)
-		for _, a := range k.actors {
-			if a.st == stBlocked && (a.kind == KRecv || a.kind == KSelect) {
-				for _, x := range a.keys {
-					if x == key && len(k.pend[key]) == 0 {
-						p := &pendSend{actor: k.cur, val: &v}
-						atomic.StoreUint32(&p.hb, 1)
-						k.pend[key] = append(k.pend[key], p)
-						k.Notify(key)
-						return true
-					}
-				}
-			}
+		if len(k.pend[key]) == 0 && k.parkedReceiver(key) {
+			p := &pendSend{actor: k.cur, val: &v}
+			atomic.StoreUint32(&p.hb, 1)
+			k.pend[key] = append(k.pend[key], p)
+			k.Notify(key)
+			return true
 		}
 	}
 	return false
@@ -426,6 +421,173 @@ func Select4[A, B, C, D any](def bool, c0 <-chan A, c1 <-chan B, c2 <-chan C, c3
 		if def {
 			return -1, a, aok, b, bok, c, cok, d, dok
 		}
+		k.wakeSelSenders(keys...)
 		k.Block(KSelect, keys...)
+	}
+}
+
+// parkedReceiver reports whether some actor is parked in a receive (or a select with a receive case) on key.
+//
+//go:norace
+func (k *Kernel) parkedReceiver(key uintptr) bool {
+	for _, a := range k.actors {
+		if a.st == stBlocked && (a.kind == KRecv || a.kind == KSelect) && a.selSend != key {
+			for _, x := range a.keys {
+				if x == key {
+					return true
+				}
+			}
+		}
+	}
+	return false
+}
+
+// SelectSend0..3: a select statement with exactly one send case and up to three receive cases.
+// idx = 0: the send happened; 1..3: that receive case; -1: default.
+//
+//go:norace
+func SelectSend0[S any](def bool, sch chan<- S, sv S) (idx int) {
+	i, _, _, _, _, _, _ := SelectSend3[S, struct{}, struct{}, struct{}](def, sch, sv, nil, nil, nil)
+	return i
+}
+
+//go:norace
+func SelectSend1[S, A any](def bool, sch chan<- S, sv S, c0 <-chan A) (idx int, a A, aok bool) {
+	i, a, aok, _, _, _, _ := SelectSend3[S, A, struct{}, struct{}](def, sch, sv, c0, nil, nil)
+	return i, a, aok
+}
+
+//go:norace
+func SelectSend2[S, A, B any](def bool, sch chan<- S, sv S, c0 <-chan A, c1 <-chan B) (idx int, a A, aok bool, b B, bok bool) {
+	i, a, aok, b, bok, _, _ := SelectSend3[S, A, B, struct{}](def, sch, sv, c0, c1, nil)
+	return i, a, aok, b, bok
+}
+
+//go:norace
+func SelectSend3[S, A, B, C any](def bool, sch chan<- S, sv S, c0 <-chan A, c1 <-chan B, c2 <-chan C) (idx int, a A, aok bool, b B, bok bool, c C, cok bool) {
+	k := K
+	if k == nil || k.dying {
+		if k == nil && Jitter != nil {
+			Jitter()
+		}
+		if def || (k != nil && k.dying) {
+			select {
+			case sch <- sv:
+				return 0, a, aok, b, bok, c, cok
+			case a, aok = <-c0:
+				return 1, a, aok, b, bok, c, cok
+			case b, bok = <-c1:
+				return 2, a, aok, b, bok, c, cok
+			case c, cok = <-c2:
+				return 3, a, aok, b, bok, c, cok
+			default:
+				if !def {
+					runtime.Goexit()
+				}
+				return -1, a, aok, b, bok, c, cok
+			}
+		}
+		select {
+		case sch <- sv:
+			return 0, a, aok, b, bok, c, cok
+		case a, aok = <-c0:
+			return 1, a, aok, b, bok, c, cok
+		case b, bok = <-c1:
+			return 2, a, aok, b, bok, c, cok
+		case c, cok = <-c2:
+			return 3, a, aok, b, bok, c, cok
+		}
+	}
+	var keys, rkeys []uintptr
+	var skey uintptr
+	if sch != nil {
+		skey = chanKeyS(sch)
+		keys = append(keys, skey)
+	}
+	if c0 != nil {
+		rkeys = append(rkeys, chanKey(c0))
+	}
+	if c1 != nil {
+		rkeys = append(rkeys, chanKey(c1))
+	}
+	if c2 != nil {
+		rkeys = append(rkeys, chanKey(c2))
+	}
+	keys = append(keys, rkeys...)
+	me := k.cur
+	var fk uintptr
+	if len(keys) > 0 {
+		fk = keys[0]
+	}
+	k.yield(KSelect, fk)
+	for {
+		var ready []int
+		if sch != nil {
+			if cap(sch) > 0 {
+				if len(sch) < cap(sch) {
+					ready = append(ready, 0)
+				}
+			} else {
+				// a send on a closed channel panics (as in the real select); otherwise nobody can
+				// be receiving for real under the token, so this only probes for "closed"
+				select {
+				case sch <- sv:
+					k.Notify(skey)
+					return 0, a, aok, b, bok, c, cok
+				default:
+				}
+				if len(k.pend[skey]) == 0 && k.parkedReceiver(skey) {
+					ready = append(ready, 0)
+				}
+			}
+		}
+		if readyRecv(k, c0) {
+			ready = append(ready, 1)
+		}
+		if readyRecv(k, c1) {
+			ready = append(ready, 2)
+		}
+		if readyRecv(k, c2) {
+			ready = append(ready, 3)
+		}
+		if len(ready) > 0 {
+			switch k.selChoose(ready) {
+			case 0:
+				if cap(sch) > 0 {
+					select {
+					case sch <- sv: // panics if closed, like the real thing
+						k.Notify(skey)
+						return 0, a, aok, b, bok, c, cok
+					default:
+						panic("simrt: buffered channel filled up under the token")
+					}
+				}
+				// unbuffered: hand the value to the parked receiver through the kernel and wait for it
+				p := &pendSend{actor: k.cur, val: &sv}
+				atomic.StoreUint32(&p.hb, 1)
+				k.pend[skey] = append(k.pend[skey], p)
+				k.Notify(skey)
+				for !p.taken {
+					k.Block(KSend, skey)
+				}
+				return 0, a, aok, b, bok, c, cok
+			case 1:
+				a, aok, _ = tryRecv(k, c0, chanKey(c0))
+				return 1, a, aok, b, bok, c, cok
+			case 2:
+				b, bok, _ = tryRecv(k, c1, chanKey(c1))
+				return 2, a, aok, b, bok, c, cok
+			default:
+				c, cok, _ = tryRecv(k, c2, chanKey(c2))
+				return 3, a, aok, b, bok, c, cok
+			}
+		}
+		if def {
+			return -1, a, aok, b, bok, c, cok
+		}
+		me.selSend = skey
+		k.wakeSelSenders(rkeys...)
+		k.Block(KSelect, keys...)
+		me.selSend = 0
 	}
 }
